@@ -21,8 +21,8 @@ ASSUMPTIONS = ["the lexer is not modelled: the parser model runs on the real lex
 def run(ctx):
     thorough, seed = ctx["thorough"], ctx["seed"]
     total = {"evaluations": 0, "disagreements": [], "violations": [], "streams": {}, "distribution": {}, "distinct_nontrivial": 0}
-    for name, rr in (("expr", expr.check(seed, 12000 if thorough else 1500)),
-                     ("shellfuzz", shellfuzz.check(seed + 1, 3000 if thorough else 400))):
+    for name, rr in (("expr", expr.check(seed, 60000 if thorough else 1500)),
+                     ("shellfuzz", shellfuzz.check(seed + 1, 12000 if thorough else 400))):
         total["evaluations"] += rr["evaluations"]
         total["distinct_nontrivial"] += rr.get("distinct", 0)
         total["disagreements"] += rr["disagreements"]
